@@ -101,13 +101,14 @@ impl Add<Duration> for Time {
     type Output = Time;
 
     fn add(self, rhs: Duration) -> Self::Output {
+        // Saturate instead of wrapping: both operands can come off the wire.
         if rhs.nanos().is_negative() {
             Time {
-                inner: self.nanos() - rhs.nanos().unsigned_abs(),
+                inner: self.nanos().saturating_sub(rhs.nanos().unsigned_abs()),
             }
         } else {
             Time {
-                inner: self.nanos() + rhs.nanos().unsigned_abs(),
+                inner: self.nanos().saturating_add(rhs.nanos().unsigned_abs()),
             }
         }
     }
